@@ -65,3 +65,25 @@ def conditions_of(module, tier):
             out.append(c)
     out.sort(key=lambda c: c.fn.__code__.co_firstlineno)
     return out
+
+
+def tolerated_signatures(prop):
+    """Known findings that are identified by the *signature* of the violation they
+    produce (schedule-dependent defects cannot be fenced by a predicate over the
+    inputs).  A monitor that meets a violation matching one of these regexes records
+    it and keeps checking everything else.  Disabled (VF_NO_TOLERANCE=1) when the
+    runner replays the witness of a finding, which must then still fail."""
+    import os, json, re
+    if os.environ.get("VF_NO_TOLERANCE"):
+        return []
+    path = os.path.join(os.path.dirname(os.path.dirname(os.path.abspath(__file__))), "known_findings.json")
+    try:
+        with open(path) as f:
+            data = json.load(f)
+    except Exception:
+        return []
+    out = []
+    for e in data.get("findings", []):
+        if e.get("status", "known") == "known" and e.get("signature") and prop in (e.get("property"), *e.get("also_seen_in", [])):
+            out.append(re.compile(e["signature"]))
+    return out
